@@ -1,0 +1,22 @@
+//go:build verif
+
+package switchr
+
+import (
+	"github.com/mycoria/mycoria/frame"
+	"github.com/mycoria/mycoria/mgr"
+)
+
+// VerifHandleFrame synchronously handles one frame exactly like a switch
+// worker does, wrapped in the same panic recovery.
+// Verification hook: only compiled with the "verif" build tag.
+func (s *Switch) VerifHandleFrame(f frame.Frame) error {
+	var handleErr error
+	if err := s.mgr.Do("verif switch", func(w *mgr.WorkerCtx) error {
+		handleErr = s.handleFrame(f)
+		return nil
+	}); err != nil {
+		return err
+	}
+	return handleErr
+}
